@@ -6,6 +6,10 @@
      XNodeSet       release() = m_value.release(); clearCachedValues();   set(v) = release(); m_value = v;
      XStringBase    m_cachedNumberValue (0.0 = "not cached"); XString::set(s) = m_value = s; clearCachedValues();
      XNumber        m_cachedStringValue (empty = "not cached"); set(v) = m_value = v; m_cachedStringValue.clear();
+     XResultTreeFrag (XSLT/) m_singleTextChildValue (pointer to the value of the only child when that is a text node, 0
+                    otherwise), m_cachedStringValue, m_cachedNumberValue (a theBogusNumberValue of its own, compared with ==).
+                    StylesheetExecutionContextDefault NEVER reuses such an object: every fragment gets a constructor call
+                    (m_xresultTreeFragAllocator.create) and returnXResultTreeFrag is release() + destroy; set() has no caller.
      XObjectFactoryDefault   three bounded stacks of recycled objects (m_xnodesetCache / m_xstringCache /
                     m_xnumberCache): doReturnObject pushes (XNodeSet: after release()), create* pops and calls set().
 
@@ -29,22 +33,35 @@ Record xo_flags : Type := mk_flags {
   f_return_releases : bool;        (* doReturnObject, eTypeNodeSet: release() before push_back *)
   f_xs_set_clears : bool;          (* XString::set() calls XStringBase::clearCachedValues() (number := 0.0) *)
   f_xn_set_clears : bool;          (* XNumber::set() clears m_cachedStringValue *)
-  f_max_ns : nat; f_max_s : nat; f_max_n : nat   (* eXNodeSetCacheMax / eXStringCacheMax / eXNumberCacheMax *)
+  f_max_ns : nat; f_max_s : nat; f_max_n : nat;  (* eXNodeSetCacheMax / eXStringCacheMax / eXNumberCacheMax *)
+  f_rtf_bogus : dbl;               (* theBogusNumberValue of XSLT/XResultTreeFrag.cpp *)
+  f_rtf_text_test : bool;          (* getSingleTextChildValue tests getNodeType() == XalanNode::TEXT_NODE *)
+  f_rtf_sibling_test : bool        (* getSingleTextChildValue tests getNextSibling() == 0 *)
 }.
 
 Definition dzero : dbl := S754_zero false.
 
 (* what an XObject is a value of: the string-values of the nodes of a node-set in list order (item(0) first),
    a string, a number *)
-Inductive payload : Type := PNodes (vals : list str) | PStr (s : str) | PNum (v : dbl).
+(* a child of a result tree fragment: a text node, an element (with its string-value), a comment (with its data) *)
+Inductive fnode : Type := FText (v : str) | FElem (sv : str) | FComment (d : str).
+Inductive payload : Type := PNodes (vals : list str) | PStr (s : str) | PNum (v : dbl) | PFrag (cs : list fnode).
 
 (* one recyclable XObject.  An XString has no cached string and an XNumber no cached number: the unused field
    is never read for that kind. *)
-Record xobj : Type := mk_obj { pl : payload; cstr : str; cnum : dbl }.
+Record xobj : Type := mk_obj { pl : payload; cstr : str; cnum : dbl;
+                              csing : option str (* XResultTreeFrag::m_singleTextChildValue; None = 0 *) }.
 
-Definition set_pl (p : payload) (o : xobj) := mk_obj p (cstr o) (cnum o).
-Definition set_cstr (s : str) (o : xobj) := mk_obj (pl o) s (cnum o).
-Definition set_cnum (x : dbl) (o : xobj) := mk_obj (pl o) (cstr o) x.
+Definition set_pl (p : payload) (o : xobj) := mk_obj p (cstr o) (cnum o) (csing o).
+Definition set_cstr (s : str) (o : xobj) := mk_obj (pl o) s (cnum o) (csing o).
+Definition set_cnum (x : dbl) (o : xobj) := mk_obj (pl o) (cstr o) x (csing o).
+
+(* DOMServices::getNodeData of a document fragment: the text of its descendants in document order *)
+Definition fnode_string (c : fnode) : str := match c with FText v => v | FElem sv => sv | FComment _ => [] end.
+Definition frag_string (cs : list fnode) : str := concat (map fnode_string cs).
+(* XalanNode::getNodeValue() *)
+Definition fnode_value (c : fnode) : str := match c with FText v => v | FElem _ => [] | FComment d => d end.
+Definition is_text (c : fnode) : bool := match c with FText _ => true | _ => false end.
 
 Definition str_empty (s : str) : bool := match s with [] => true | _ => false end.
 Definition has_nodes (vals : list str) : bool := match vals with [] => false | _ => true end.
@@ -62,7 +79,8 @@ Inductive query : Type :=
 Inductive obs : Type := ONum (x : dbl) | OStr (s : str) | OLen (n : N) | OBool (b : bool).
 
 Inductive op : Type :=
-| Create (p : payload)      (* createNodeSet(BorrowReturnMutableNodeRefList&) / createString(const XalanDOMString&) / createNumber(double) *)
+| Create (p : payload)      (* createNodeSet(BorrowReturnMutableNodeRefList&) / createString(const XalanDOMString&) / createNumber(double)
+                               / [end]createXResultTreeFrag *)
 | Ask (i : nat) (q : query) (* a member function of the i-th object the caller holds *)
 | Return (i : nat).         (* the last XObjectPtr to it goes away: XObjectFactory::returnObject *)
 
@@ -133,6 +151,45 @@ Definition xn_str_ref (o : xobj) (v : dbl) : xobj * str :=
   if str_empty (cstr o) then let o' := set_cstr (cstr o ++ num_to_str v) o in (o', cstr o') else (o, cstr o).
 Definition xn_str_buf (o : xobj) (v : dbl) : str :=
   if negb (str_empty (cstr o)) then cstr o else num_to_str v.
+(* ---- XResultTreeFrag ---- *)
+(* getSingleTextChildValue(theRTreeFrag) *)
+Definition single_text_child (cs : list fnode) : option str :=
+  match cs with
+  | c :: rest =>
+      if (negb (f_rtf_text_test fl) || is_text c)
+         && (negb (f_rtf_sibling_test fl) || match rest with [] => true | _ => false end)
+      then Some (fnode_value c) else None
+  | [] => None
+  end.
+(* m_cachedNumberValue == theBogusNumberValue *)
+Definition is_rtf_bogus (x : dbl) : bool := d_eqb x (f_rtf_bogus fl).
+(* str(executionContext) / str() *)
+Definition rtf_str_ref (o : xobj) (cs : list fnode) : xobj * str :=
+  match csing o with
+  | Some v => (o, v)
+  | None => if str_empty (cstr o)
+            then let o' := set_cstr (cstr o ++ frag_string cs) o in (o', cstr o')
+            else (o, cstr o)
+  end.
+(* num(executionContext) / num() *)
+Definition rtf_num (o : xobj) (cs : list fnode) : xobj * dbl :=
+  if is_rtf_bogus (cnum o)
+  then let (o1, s) := rtf_str_ref o cs in
+       let n := to_num s in (set_cnum n o1, n)
+  else (o, cnum o).
+(* str(..., theBuffer), str(..., formatterListener, function) *)
+Definition rtf_str_buf (o : xobj) (cs : list fnode) : str :=
+  match csing o with
+  | Some v => v
+  | None => if negb (str_empty (cstr o)) then cstr o else frag_string cs
+  end.
+(* stringLength(executionContext) *)
+Definition rtf_len (o : xobj) (cs : list fnode) : N :=
+  match csing o with
+  | Some v => N.of_nat (length v)
+  | None => if negb (str_empty (cstr o)) then N.of_nat (length (cstr o)) else N.of_nat (length (frag_string cs))
+  end.
+
 (* XObject::boolean(double) *)
 Definition num_bool (v : dbl) : bool := negb (d_is_nan v) && negb (d_eqb v dzero).
 
@@ -161,6 +218,14 @@ Definition ask (q : query) (o : xobj) : xobj * obs :=
       | QLen => let (o', s) := xn_str_ref o v in (o', OLen (N.of_nat (length s)))
       | QBool => (o, OBool (num_bool v))
       end
+  | PFrag cs =>
+      match q with
+      | QNum => let (o', n) := rtf_num o cs in (o', ONum n)
+      | QStrRef => let (o', s) := rtf_str_ref o cs in (o', OStr s)
+      | QStrBuf | QStrEvents => (o, OStr (rtf_str_buf o cs))
+      | QLen => (o, OLen (rtf_len o cs))
+      | QBool => (o, OBool true)       (* "Result tree fragments always evaluate to true." *)
+      end
   end.
 
 (* ---- XNodeSet::release / set, XString::set, XNumber::set ---- *)
@@ -177,9 +242,10 @@ Definition xn_set (o : xobj) (v : dbl) : xobj :=
 (* the constructors *)
 Definition fresh (p : payload) : xobj :=
   match p with
-  | PNodes _ => mk_obj p [] (f_bogus fl)
-  | PStr _ => mk_obj p [] dzero
-  | PNum _ => mk_obj p [] dzero
+  | PNodes _ => mk_obj p [] (f_bogus fl) None
+  | PStr _ => mk_obj p [] dzero None
+  | PNum _ => mk_obj p [] dzero None
+  | PFrag cs => mk_obj p [] (f_rtf_bogus fl) (single_text_child cs)
   end.
 
 (* ---- the factory: the objects the caller holds + the three stacks (head = back() of the vector) ---- *)
@@ -203,6 +269,7 @@ Definition create (p : payload) (w : world) : world :=
       | o :: rest => mk_world (live w ++ [xn_set o v]) (st_ns w) (st_s w) rest
       | [] => mk_world (live w ++ [fresh p]) (st_ns w) (st_s w) []
       end
+  | PFrag _ => mk_world (live w ++ [fresh p]) (st_ns w) (st_s w) (st_n w)   (* always the constructor *)
   end.
 
 (* doReturnObject: back to the stack of its kind while that has room, destroyed otherwise *)
@@ -218,6 +285,7 @@ Definition give_back (o : xobj) (w : world) : world :=
   | PNum _ =>
       if Nat.ltb (length (st_n w)) (f_max_n fl)
       then mk_world (live w) (st_ns w) (st_s w) (o :: st_n w) else w
+  | PFrag _ => w      (* returnXResultTreeFrag: release() and destroyed *)
   end.
 
 Definition step (w : world) (x : op) : world * list obs :=
@@ -245,7 +313,7 @@ Fixpoint run (w : world) (ops : list op) : list obs :=
 (* ---- the specification: no caches, no factory; every answer is the XPath conversion of the payload the
         object holds now ---- *)
 Definition string_of (p : payload) : str :=
-  match p with PNodes vals => first_data vals | PStr s => s | PNum v => num_to_str v end.
+  match p with PNodes vals => first_data vals | PStr s => s | PNum v => num_to_str v | PFrag cs => frag_string cs end.
 Definition conv (p : payload) (q : query) : obs :=
   match q with
   | QNum => ONum (match p with PNum v => v | _ => to_num (string_of p) end)
@@ -255,6 +323,7 @@ Definition conv (p : payload) (q : query) : obs :=
                     | PNodes vals => has_nodes vals
                     | PStr s => negb (str_empty s)
                     | PNum v => num_bool v
+                    | PFrag _ => true
                     end)
   end.
 
@@ -286,7 +355,8 @@ Definition clear_resets_both : bool :=
 Definition flags_ok : bool :=
   clear_resets_both && d_eqb (f_bogus fl) (f_bogus fl)
   && f_release_clears fl && (f_set_releases fl || f_return_releases fl)
-  && f_xs_set_clears fl && f_xn_set_clears fl.
+  && f_xs_set_clears fl && f_xn_set_clears fl
+  && f_rtf_text_test fl && f_rtf_sibling_test fl && d_eqb (f_rtf_bogus fl) (f_rtf_bogus fl).
 
 End Machine.
 
@@ -295,11 +365,18 @@ Definition gen_flags : xo_flags :=
   let '(a, b, c) := gen_xo_cache_max in
   mk_flags gen_xo_clear_prog (of_bits gen_xo_bogus_bits) gen_xo_release_clears gen_xo_set_releases
            gen_xo_return_releases gen_xo_xstring_set_clears gen_xo_xnumber_set_clears
-           (N.to_nat a) (N.to_nat b) (N.to_nat c).
+           (N.to_nat a) (N.to_nat b) (N.to_nat c)
+           (of_bits gen_xo_rtf_bogus_bits) gen_xo_rtf_text_test gen_xo_rtf_sibling_test.
 
 (* the seeded shape (seeded/C11_f): reset only when the cached string is non-empty *)
 Definition seeded_flags : xo_flags :=
-  mk_flags [XoIfStrNonEmpty [XoResetNum; XoClearStr]] (of_bits gen_xo_bogus_bits) true true true true true 40 40 40.
+  mk_flags [XoIfStrNonEmpty [XoResetNum; XoClearStr]] (of_bits gen_xo_bogus_bits) true true true true true 40 40 40
+           (of_bits gen_xo_rtf_bogus_bits) true true.
+
+(* a plausible broken shape of getSingleTextChildValue: the test that the first child has no sibling is gone *)
+Definition no_sibling_test_flags : xo_flags :=
+  mk_flags gen_xo_clear_prog (of_bits gen_xo_bogus_bits) true true true true true 40 40 40
+           (of_bits gen_xo_rtf_bogus_bits) true false.
 
 (* the extracted model: the machine of this tree with C18's conversions *)
 Definition xo_run (ops : list op) : list obs := run string_to_number number_to_string gen_flags (w0) ops.
